@@ -29,6 +29,8 @@ use crate::{
 pub struct FVal {
     pub id: u64,
     pub key: u64,
+    /// rejected by the memory filter: the insert is a disk-only (phantom) insert
+    pub reject: bool,
 }
 
 type Entry = CacheEntry<u64, FVal, SpecHasher>;
@@ -58,6 +60,10 @@ pub enum FOp {
     DropCaller { j: u16 },
     Cancel,
     Insert { k: u8 },
+    /// explicit insert of a value the memory filter rejects: a disk-only (phantom) entry - it answers the waiters of a
+    /// pending flight like any insert, replaces the resident entry of the key, and is itself not kept in memory
+    #[serde(alias = "InsertPhantom")]
+    InsertDiskOnly { k: u8 },
     Remove { k: u8 },
     Get { k: u8 },
     Settle,
@@ -376,6 +382,7 @@ pub fn run_fetch_case(case: &FCase) -> FetchJudgement {
         .with_shards(case.shards)
         .with_eviction_config(case.algo.eviction_config())
         .with_hash_builder(SpecHasher::new(case.hash.clone()))
+        .with_filter(|_k: &u64, v: &FVal| !v.reject)
         .build();
     let mut rt = Some(new_rt());
     let mut next_id = 1u64;
@@ -522,7 +529,7 @@ pub fn run_fetch_case(case: &FCase) -> FetchJudgement {
                                 (
                                     DiskVal::Hit(id),
                                     Ok(Some(FetchTarget::Entry {
-                                        value: FVal { id, key: callers[i].key },
+                                        value: FVal { id, key: callers[i].key, reject: false },
                                         properties: CacheProperties::default(),
                                     })),
                                 )
@@ -542,7 +549,7 @@ pub fn run_fetch_case(case: &FCase) -> FetchJudgement {
                     if origin_vals[i].is_none() {
                         let id = next_id;
                         let out: OriginOut = if *ok {
-                            Ok(FVal { id, key: callers[i].key })
+                            Ok(FVal { id, key: callers[i].key, reject: false })
                         } else {
                             Err(anyhow::anyhow!("simulated origin failure"))
                         };
@@ -594,9 +601,20 @@ pub fn run_fetch_case(case: &FCase) -> FetchJudgement {
                 let key = *k as u64;
                 let id = next_id;
                 next_id += 1;
-                let e = cache.insert(key, FVal { id, key });
+                let e = cache.insert(key, FVal { id, key, reject: false });
                 held.push(e);
                 m.emplace(key, id, true);
+                last_insert_step.insert(key, step);
+            }
+            FOp::InsertDiskOnly { k } => {
+                let key = *k as u64;
+                let id = next_id;
+                next_id += 1;
+                let e = cache.insert(key, FVal { id, key, reject: true });
+                held.push(e);
+                m.emplace(key, id, true);
+                // the value itself goes to the disk tier, not into memory
+                m.resident.remove(&key);
                 last_insert_step.insert(key, step);
             }
             FOp::Remove { k } => {
